@@ -66,45 +66,17 @@ def run(ctx, chk):
         chk.ok('C16.1', 'writers', sample={'oam_dma writers': wfns})
     else:
         chk.fail('C16.1', 'writers', 'oam_dma is written in %s' % wfns, file, None)
-    # ---- pre-loop state
-    ipa = absint.Interp(facts, loop_mode='abort', opaque=[RB, WB, IRC], opaque_havoc={WB: [0]}, sym_facts=inv.sym_facts,
-                        trust_asserts=('overflow',))
-    st = ipa.new_state()
-    mem = ipa.arg_object(st, 'mem')
+    # ---- the copy loop: one symbolic iteration (loop state havoced), classified as a count-down over a remaining-bytes
+    # counter or a count-up of the offset towards a computed end
+    from .. import bvproof
     clocks = S(64, 'clocks')
     cyc = ('agg', ('adt', 'timing::ClockCycles', 0, 'ClockCycles'), (clocks,))
-    B0 = None
-    for r in ipa.run(MRC, [mem, cyc], st):
-        for d in r.state.decisions:
-            t = d[0]
-            if t[0] == 'o' and t[2] == 'ugt' and t[4] == C(64, 0) and t[3][0] == 'o' and t[3][2] == 'umin':
-                B0 = t[3]
-                break
-        if B0 is not None:
-            break
-    off0 = None
-    lemma_pre = False
-    if B0 is not None:
-        a, b = B0[3], B0[4]
-        for x, y in ((a, b), (b, a)):
-            if x[0] == 'o' and x[2] == 'sub' and x[3] == C(64, 0xa0) and y == O(64, 'udiv', clocks, C(64, 4)):
-                inner = x[4]
-                ss = [s_ for s_ in syms_of(inner) if s_[3] and s_[3][0] == 'field' and s_[3][2] == 'current_offset']
-                if ss and inner == O(64, 'zext', ss[0]):
-                    off0 = ss[0]
-                    lemma_pre = True
-    if lemma_pre:
-        chk.ok('C16.5', 'batch-size', sample={'bytes_this_batch': fmt(B0)})
-    else:
-        chk.fail('C16.5', 'batch-size', 'bytes to copy per batch is %s, expected min(0xa0 - offset, clocks / 4)'
-                 % (fmt(B0) if B0 else 'not found'), file, None)
     offinv = inv.get(DMA, 'current_offset')
     if offinv is not None and offinv.hi <= 0x9f:
         chk.ok('C16.2', 'offset-invariant', sample={'DMAState.current_offset': [offinv.lo, offinv.hi],
                                                     'stores': inv.why.get((DMA, 'current_offset'))})
     else:
         chk.fail('C16.2', 'offset-invariant', 'a saved DMA offset can exceed 0x9f (%s)' % offinv, file, None)
-    # ---- loop body
     iph = absint.Interp(facts, loop_mode='havoc', opaque=[RB, WB, IRC], opaque_havoc={WB: [0]}, sym_facts=inv.sym_facts,
                         trust_asserts=('overflow',))
     st = iph.new_state()
@@ -115,16 +87,59 @@ def run(ctx, chk):
     if not body:
         chk.error('no copy-loop iteration found in MemoryAreas::run_clock_cycles (anchor lost)')
         return chk.finish('anchors missing')
-    countdown = any(d[0][0] == 'o' and d[0][2] == 'ugt' and d[0][3][0] == 's' and d[0][3][2].startswith('loopvar:')
-                    for r in body for d in r.state.decisions)
-    if not countdown:
-        # the rules below understand the copy loop as "remaining = min(0xa0 - offset, clocks / 4); while remaining > 0".
-        # Another way of writing the loop (an iterator over offsets, a computed end) is not a defect: no verdict
-        chk.error('the OAM DMA copy loop is not written as a count-down over min(0xa0 - offset, clocks / 4): its shape is not '
-                  'understood by this check (no verdict on the loop clauses)')
-        chk.violations[:] = [v for v in chk.violations if not (v['rule'] == 'C16.5' and v['key'] == 'batch-size')]
+
+    def is_loopvar(t):
+        return t[0] == 's' and isinstance(t[2], str) and t[2].startswith('loopvar:')
+
+    def has_loopvar(t):
+        return any(is_loopvar(x) for x in syms_of(t))
+
+    def guard_of(r):
+        """('down', B, None) for `remaining > 0` / `remaining != 0`; ('up', X, E) for `offset < end`"""
+        env = r.state.env
+        for d in r.state.decisions:
+            t = d[0]
+            if t[0] != 'o':
+                continue
+            cv = env.const_of(t)
+            if t[2] == 'ugt' and is_loopvar(t[3]) and t[4] == C(t[3][1], 0) and cv == 1:
+                return ('down', t[3], None)
+            if t[2] == 'ult' and t[3] == C(t[4][1], 0) and is_loopvar(t[4]) and cv == 1:
+                return ('down', t[4], None)
+            if t[2] in ('eq', 'ne') and is_loopvar(t[3]) and t[4] == C(t[3][1], 0) and cv == (0 if t[2] == 'eq' else 1):
+                return ('down', t[3], None)
+            if t[2] == 'ult' and is_loopvar(t[3]) and not has_loopvar(t[4]) and cv == 1:
+                return ('up', t[3], t[4])
+            if t[2] == 'ugt' and is_loopvar(t[4]) and not has_loopvar(t[3]) and cv == 1:
+                return ('up', t[4], t[3])
+        return None
+
+    def final_of(sym, r):
+        """value, at the end of the iteration, of the local a loop-variable symbol stands for"""
+        mm = re.search(r':_(\d+)(\.start)?$', sym[2])
+        if not mm:
+            return None
+        v = r.state.mem.get(('L', 1, int(mm.group(1))))
+        if mm.group(2):
+            return v[2][0] if (v is not None and v[0] == 'agg' and len(v[2]) == 2) else None
+        return v
+
+    forms = set()
+    inits = {}
+    for r in body:
+        g = guard_of(r)
+        forms.add(g[0] if g else None)
+        for e in r.state.events:
+            if e[0] == 'loopinit':
+                inits[e[1]] = (e[2], e[3])
+    if len(forms) != 1 or None in forms:
+        # Neither "while remaining > 0" nor "offset < end" (a for-range over offsets is the latter): not a defect, but
+        # this check does not understand the loop, so it gives no verdict on the loop clauses
+        chk.error('the OAM DMA copy loop is neither a count-down of the bytes remaining nor a count-up of the offset to a '
+                  'computed end: its shape is not understood by this check (no verdict on the loop clauses)')
         return chk.finish('copy loop shape not understood')
-    Bs = Xs = None
+    form = forms.pop()
+    Bs = Xs = Es = None
     step_ok = True
     why = ''
     for r in body:
@@ -132,19 +147,22 @@ def run(ctx, chk):
         calls = [e for e in r.state.events if e[0] == 'call']
         rd = [c for c in calls if c[1] == RB]
         wr = [c for c in calls if c[1] == WB]
-        guard = [d[0] for d in r.state.decisions if d[0][0] == 'o' and d[0][2] == 'ugt' and d[0][3][0] == 's'
-                 and d[0][3][2].startswith('loopvar:')]
-        if len(rd) != 1 or len(wr) != 1 or not guard:
+        _, G, E = guard_of(r)
+        if len(rd) != 1 or len(wr) != 1:
             step_ok, why = False, 'an iteration performs %d reads and %d writes' % (len(rd), len(wr))
             continue
-        B = guard[0][3]
         dest = wr[0][2][1]
-        xs = [s_ for s_ in syms_of(dest) if s_[2].startswith('loopvar:')]
+        xs = [s_ for s_ in syms_of(dest) if is_loopvar(s_)]
         if len(xs) != 1 or diff_const(dest, O(16, 'trunc', xs[0]), env, 16) != 0xfe00:
             step_ok, why = False, 'destination address is %s, expected 0xfe00 + offset' % fmt(dest)
             continue
         X = xs[0]
-        Bs, Xs = B, X
+        if form == 'up' and X != G:
+            step_ok, why = False, 'the loop guard tests %s but the destination is indexed by %s' % (fmt(G), fmt(X))
+            continue
+        Xs, Es = X, E
+        if form == 'down':
+            Bs = G
         # value written = byte read in this iteration at source + X
         if wr[0][2][2] != rd[0][3]:
             chk.fail('C16.3', 'value', 'the byte written (%s) is not the byte read in the same step (%s)'
@@ -158,24 +176,58 @@ def run(ctx, chk):
         if calls.index(rd[0]) > calls.index(wr[0]):
             step_ok, why = False, 'write precedes read'
         # counters at the end of the iteration
-        nb = int(re.search(r'_(\d+)$', B[2]).group(1))
-        nx = int(re.search(r'_(\d+)$', X[2]).group(1))
-        fb = r.state.mem.get(('L', 1, nb))
-        fx = r.state.mem.get(('L', 1, nx))
-        if fb != O(64, 'sub', B, C(64, 1)) or fx != O(64, 'add', X, C(64, 1)):
-            step_ok, why = False, 'counters after one byte: remaining=%s offset=%s (expected -1 / +1)' % (fmt(fb), fmt(fx))
+        fx = final_of(X, r)
+        okx = fx is not None and T.is_int(fx) and (fx == O(X[1], 'add', X, C(X[1], 1)) or
+                                                    bvproof.equal_under(fx, O(X[1], 'add', X, C(X[1], 1)), env, X[1]))
+        okb = True
+        fb = None
+        if form == 'down':
+            fb = final_of(G, r)
+            okb = fb is not None and T.is_int(fb) and (fb == O(G[1], 'sub', G, C(G[1], 1)) or
+                                                        bvproof.equal_under(fb, O(G[1], 'sub', G, C(G[1], 1)), env, G[1]))
+        if not okx or not okb:
+            step_ok, why = False, 'counters after one byte: remaining=%s offset=%s (expected -1 / +1)' % (
+                fmt(fb) if fb else '-', fmt(fx) if fx else '?')
         other = [e for e in r.state.events if e[0] == 'store' and e[1] == 'mem']
         if other:
             step_ok, why = False, 'the copy step also stores to %s' % [e[2] for e in other]
-    if step_ok and Bs is not None:
-        chk.ok('C16.4', 'step', sample={'per byte': 'offset += 1, remaining -= 1, read then write'})
+    if step_ok and Xs is not None:
+        chk.ok('C16.4', 'step', sample={'per byte': 'offset += 1%s, read then write' %
+                                        (', remaining -= 1' if form == 'down' else ' up to the computed end'),
+                                        'loop form': form})
     else:
         chk.fail('C16.4', 'step', 'copy loop: %s' % why, file, None)
+    # ---- batch size: number of iterations N0 = min(0xa0 - offset0, clocks / 4), offset0 = the saved offset
+    lemma_pre = False
+    N0 = X0 = None
+    env0 = body[0].state.env
+    if Xs is not None and Xs in inits:
+        X0 = inits[Xs][0]
+        if form == 'down' and Bs in inits:
+            N0 = inits[Bs][0]
+        elif form == 'up':
+            N0 = O(64, 'sub', Es, X0) if Es is not None else None
+    off0 = None
+    if X0 is not None:
+        ss = [s_ for s_ in syms_of(X0) if s_[3] and s_[3][0] == 'field' and s_[3][2] == 'current_offset']
+        if len(ss) == 1 and (X0 == O(X0[1], 'zext', ss[0]) or bvproof.equal_under(X0, O(X0[1], 'zext', ss[0]), env0, X0[1])):
+            off0 = ss[0]
+    if off0 is not None and N0 is not None:
+        want = O(64, 'umin', O(64, 'sub', C(64, 0xa0), O(64, 'zext', off0)), O(64, 'udiv', clocks, C(64, 4)))
+        lemma_pre = (N0 == want) or bool(bvproof.equal_under(N0, want, env0, 64))
+    if lemma_pre:
+        chk.ok('C16.5', 'batch-size', sample={'bytes_this_batch': fmt(N0), 'first offset': fmt(X0)})
+    else:
+        chk.fail('C16.5', 'batch-size', 'bytes to copy per batch is %s starting at offset %s, expected min(0xa0 - offset, '
+                 'clocks / 4) starting at the saved offset' % (fmt(N0) if N0 else 'not found', fmt(X0) if X0 else 'not found'),
+                 file, None)
     lemma = step_ok and lemma_pre and offinv is not None and offinv.hi <= 0x9f
     if lemma:
-        chk.ok('C16.2', 'lemma', sample={'paired counters': 'offset + remaining is invariant, remaining0 <= 0xa0 - offset0, '
-                                                            'guard remaining > 0  =>  offset <= 0x9f inside the loop',
-                                         'destination': '0xfe00..0xfe9f (OAM by C10)'})
+        chk.ok('C16.2', 'lemma', sample={
+            'down': 'paired counters: offset + remaining is invariant, remaining0 <= 0xa0 - offset0, guard remaining > 0 '
+                    ' =>  offset <= 0x9f inside the loop',
+            'up': 'offset < end = offset0 + min(0xa0 - offset0, clocks/4) <= 0xa0  =>  offset <= 0x9f inside the loop'}[form]
+            and {'loop form': form, 'destination': '0xfe00..0xfe9f (OAM by C10)'})
     else:
         chk.fail('C16.2', 'lemma', 'cannot establish offset <= 0x9f inside the copy loop (step uniform=%s, batch size=%s, '
                  'saved offset range=%s)' % (step_ok, lemma_pre, offinv), file, None)
@@ -185,7 +237,8 @@ def run(ctx, chk):
         chk.ok('C16.2', 'oam-region', sample={'0xfe00-0xfe9f': 'oam_ram[addr & 0xff]'})
     else:
         chk.fail('C16.2', 'oam-region', 'bus writes to 0xfe00-0xfe9f do not land in OAM', file, None)
-    # ---- exits: retire / save
+    # ---- exits: retire / save. F = offset reached when the loop ends: the offset counter itself (at the exit of a
+    # count-down its value is offset0 + N0 by the pairing; at the exit of a count-up it equals the end) or the end
     ret_ok = True
     rwhy = ''
     seen = set()
@@ -201,23 +254,33 @@ def run(ctx, chk):
             ret_ok, rwhy = False, 'oam_dma stored %d times after the loop' % len(st_)
             continue
         v = st_[0][3]
-        cmpd = [d[0] for d in r.state.decisions if d[0][0] == 'o' and d[0][2] == 'ult' and d[0][4] == C(64, 0xa0)]
-        if not cmpd:
-            ret_ok, rwhy = False, 'retire decision is not "offset < 0xa0"'
+        cands = [c for c in (Xs, Es if form == 'up' else None) if c is not None]
+        if not cands:
+            ret_ok, rwhy = False, 'the offset reached by the loop is not identified'
             continue
-        below = env.const_of(cmpd[-1])
         if v[0] == 'agg' and v[1][3] == 'None':
             seen.add('retire')
-            if below != 0:
+            # retiring is right only when the offset reached is 0xa0 (it never exceeds it): F < 0xa0 must be impossible here
+            if not any(env.const_of(O(1, 'ult', c, C(c[1], 0xa0))) == 0 or
+                       bvproof.equal_under(O(1, 'ult', c, C(c[1], 0xa0)), C(1, 0), env, 1) for c in cands):
                 ret_ok, rwhy = False, 'transfer retired while offset < 0xa0'
         elif v[0] == 'agg' and v[1][3] == 'Some':
             seen.add('save')
             inner = v[2][0][2]
             offv = inner[1]
-            if below != 1 or env.av(offv).hi > 0x9f:
-                ret_ok, rwhy = False, 'transfer saved with offset %s' % env.av(offv)
-            if O(64, 'zext', offv) != cmpd[-1][3] and offv != O(8, 'trunc', cmpd[-1][3]):
-                ret_ok, rwhy = False, 'saved offset %s is not the loop counter %s' % (fmt(offv), fmt(cmpd[-1][3]))
+            av = env.av(offv)
+            if av.hi > 0x9f:
+                from ..invariants import _exact_bits
+                av = _exact_bits(offv, env) or av
+            if av.hi > 0x9f:
+                ret_ok, rwhy = False, 'transfer saved with offset %s' % av
+            if not any(O(c[1], 'zext', offv) == c or offv == O(8, 'trunc', c) or
+                       bvproof.equal_under(offv, O(8, 'trunc', c), env, 8) for c in cands):
+                ret_ok, rwhy = False, 'saved offset %s is not the offset the loop reached (%s)' % (
+                    fmt(offv), ' / '.join(fmt(c) for c in cands))
+            if not any(d[0][0] == 'o' and d[0][2] in ('ult', 'ule', 'ugt', 'uge', 'eq', 'ne') and
+                       any(syms_of(c) & syms_of(d[0]) for c in cands) for d in r.state.decisions):
+                ret_ok, rwhy = False, 'the transfer is saved without testing whether it is complete'
     if ret_ok and seen == {'retire', 'save'}:
         chk.ok('C16.4', 'retire', sample={'offset == 0xa0': 'oam_dma := None', 'offset < 0xa0': 'saved with progress'})
     else:
